@@ -372,7 +372,7 @@ META = {
     },
     "C13": {
         "run": run_c13,
-        "rule": "all sequences of <= 3 (quick) / 4 (thorough) symbols over a 14/20-symbol alphabet (exhaustive) + random structured lines from the weighted token alphabet (keywords whole/split/mixed case, tricky identifiers, numerals, operators, quotes, REM/DATA tails, multi-byte and control characters), 30% with a line-number prefix and the interpreter's skip; distinct = distinct (line, skip); non-trivial = yields at least one token",
+        "rule": "150 multi-line files built from the line corpus (30% untokenizable lines): the analyzer's token ranges for file line i = line-number token + the tokenizer's ranges for that line; all sequences of <= 3 (quick) / 4 (thorough) symbols over a 14/20-symbol alphabet (exhaustive) + random structured lines from the weighted token alphabet (keywords whole/split/mixed case, tricky identifiers, numerals, operators, quotes, REM/DATA tails, multi-byte and control characters), 30% with a line-number prefix and the interpreter's skip; distinct = distinct (line, skip); non-trivial = yields at least one token",
         "trusted_base": TB_COMMON,
         "assumptions": ASSUME_COMMON,
     },
@@ -387,15 +387,15 @@ _HIST_RULE = ("adaptive, replayable host-call histories: optional generated prog
               "call list; non-trivial = more than 5 calls") % len(stateful.BOUNDARY_LINES)
 
 META.update({
-    "C01": {"run": stateful.run_c01, "rule": _HIST_RULE + "; plus deep-nesting probes (8 shapes x 9 depths, 10..20000/100000; unary-operator runs 15 x as long) each in a fresh process",
+    "C01": {"run": stateful.run_c01, "rule": _HIST_RULE + "; 70 scripted edit-then-probe sessions (7 ways of holding a reference into a line x 5 edits x the statements that follow the reference); plus deep-nesting probes (8 shapes x 9 depths, 10..20000/100000; unary-operator runs 15 x as long) each in a fresh process",
             "trusted_base": TB_COMMON, "assumptions": ASSUME_COMMON + ["native stack: a nesting depth of 64 fits the stack (probed at the cap boundary, not proved)"]},
-    "C16": {"run": stateful.run_c16, "rule": "20 cap-seeking programs (recursive GOSUB/FN, 34 FOR variables, DIM around 10000 cells, kind mismatches on every write path) + " + _HIST_RULE + "; invariant checked on the snapshot after EVERY call",
+    "C16": {"run": stateful.run_c16, "rule": "13 frame-budget programs (d open subroutines + a chain of k user functions: d + k <= 32 runs, more is OUT OF MEMORY), decided by the outcome; 20 cap-seeking programs (recursive GOSUB/FN, 34 FOR variables, DIM around 10000 cells, kind mismatches on every write path) + " + _HIST_RULE + "; invariant checked on the snapshot after EVERY call",
             "trusted_base": TB_COMMON, "assumptions": ASSUME_COMMON},
     "C10": {"run": stateful.run_c10, "rule": "generated program + random history (immediate assignments/DIM/FOR/GOSUB/READ/DEF/INPUT, RUN, CONT, GOTO, randomize, breaks while running, while awaiting input and right after a reply), then RUN, compared turn by turn (outcome, state, outputs, full snapshot) with RUN in a fresh interpreter holding the same program, generator state and flags; distinct = (program, history); non-trivial = non-empty history",
             "trusted_base": TB_COMMON, "assumptions": ASSUME_COMMON},
     "C11": {"run": stateful.run_c11, "rule": "fixed 12-line program or generated program, run for 0-24 turns to a random suspension point (idle/end, error, STOP, host break while running or awaiting input), one edit (add/replace/delete/rejected), snapshot comparison, then one probe (CONT/RETURN/NEXT/FN call/READ/GOTO)",
             "trusted_base": TB_COMMON, "assumptions": ASSUME_COMMON},
-    "C18": {"run": stateful.run_c18, "rule": "randomize(seed) then 2-11 PRINT RND(arg) with arg in {1,0,-1,0.5,1000000,-0,-.001}; seeds: 10 boundary values (0, 2^33+-1, 2^43, 2^44, 2^63, 2^64-1) 40%, random 64-bit 36%, random < 2^33 24%; oracle = independent Python LCG + exact float comparison + range + generator state from the snapshot",
+    "C18": {"run": stateful.run_c18, "rule": "60 program sessions (draws at the prompt, by a stored program under RUN, after STOP + CONT, a second RUN, an edit, failing statements: one sequence per seed); randomize(seed) then 2-11 PRINT RND(arg) with arg in {1,0,-1,0.5,1000000,-0,-.001}; seeds: 10 boundary values (0, 2^33+-1, 2^43, 2^44, 2^63, 2^64-1) 40%, random 64-bit 36%, random < 2^33 24%; oracle = independent Python LCG + exact float comparison + range + generator state from the snapshot",
             "trusted_base": TB_COMMON, "assumptions": ASSUME_COMMON,
             "allowed_axioms": ["ClassicalDedekindReals.sig_forall_dec", "FunctionalExtensionality.functional_extensionality_dep"]},
 })
@@ -404,19 +404,19 @@ META.update({
 from . import semantic  # noqa: E402
 
 META.update({
-    "C02": {"run": semantic.run_c02, "rule": "PRINT <expr> against an independent IEEE-754 fold (Python, powers taken from the implementation's powf log so only the position of ^ is decided): exhaustive over all 13x13 binary operator pairs x both tree shapes x 4 operand triples, all unary x binary combinations, then random trees (depth 1-4) over 19 operands (numbers incl. -0 and a 20-digit literal, strings, set/unset variables of both kinds), ABS, INT, with minimal and random redundant parentheses, spacing and case; distinct = distinct text; non-trivial = not a bare operand",
+    "C02": {"run": semantic.run_c02, "rule": "360 power operand pairs (inexact bases x whole, negative, huge and fractional exponents), every logged power compared with the C library's pow; PRINT <expr> against an independent IEEE-754 fold (Python, powers taken from the implementation's powf log so only the position of ^ is decided): exhaustive over all 13x13 binary operator pairs x both tree shapes x 4 operand triples, all unary x binary combinations, then random trees (depth 1-4) over 19 operands (numbers incl. -0 and a 20-digit literal, strings, set/unset variables of both kinds), ABS, INT, with minimal and random redundant parentheses, spacing and case; distinct = distinct text; non-trivial = not a bare operand",
             "trusted_base": TB_COMMON, "assumptions": ASSUME_COMMON},
-    "C07": {"run": semantic.run_c07, "rule": "generated programs (nested FOR, GOSUB, IF/ELSE, READ/DATA, DEF FN, INPUT, RND), each run uninterrupted and 2 (quick) / 4 (thorough) times with 1-4 host breaks at random turn boundaries (running or awaiting input) followed by 0-2 inspection lines (15 forms incl. failing ones and failing FN calls) and CONT; transcripts (Print, Reenter, ExtraIgnored, input requests, final error) compared with Break records removed; plus assignment-at-STOP vs assignment-in-place",
+    "C07": {"run": semantic.run_c07, "rule": "failing DEF lines among the inspections, a fixed program whose continuation calls the program's functions broken at every turn; generated programs (nested FOR, GOSUB, IF/ELSE, READ/DATA, DEF FN, INPUT, RND), each run uninterrupted and 2 (quick) / 4 (thorough) times with 1-4 host breaks at random turn boundaries (running or awaiting input) followed by 0-2 inspection lines (15 forms incl. failing ones and failing FN calls) and CONT; transcripts (Print, Reenter, ExtraIgnored, input requests, final error) compared with Break records removed; plus assignment-at-STOP vs assignment-in-place",
             "trusted_base": TB_COMMON, "assumptions": ASSUME_COMMON + ["an input request that is re-issued because the host broke in before answering counts once", "inspection lines exclude RND(positive) and reads of arrays that do not exist yet (those change state by the language's own rules)"]},
     "C08": {"run": semantic.run_c08, "rule": "9 placements of INPUT (alone, after statements, in THEN, in THEN with ELSE, in ELSE, with trailing statements, in a FOR line, in a subroutine) x 7 targets (scalars, string, 1- and 2-dimensional cells, computed subscript) x 15 valid replies x surplus items x 0-2 REENTER rounds, against the same program with the INPUT replaced by the assignment; snapshot compared at suspension",
             "trusted_base": TB_COMMON, "assumptions": ASSUME_COMMON},
-    "C09": {"run": semantic.run_c09, "rule": "generated programs (30%% never-ending) + 6 adversarial lines, run with tracing on; per call: trace records name one line, at most one Print record, cursor reads <= 14*(tokens of the line + 1) + 24 for programs without user functions; the model's read counter must EQUAL the hook's on every call",
+    "C09": {"run": semantic.run_c09, "rule": "cursor oracle: a call that stays on its IF-free line and moves forward passes at most one statement separator; PRINT chains joined by ; and : ; generated programs (30%% never-ending) + 6 adversarial lines, run with tracing on; per call: trace records name one line, at most one Print record, cursor reads <= 14*(tokens of the line + 1) + 24 for programs without user functions; the model's read counter must EQUAL the hook's on every call",
             "trusted_base": TB_COMMON, "assumptions": ASSUME_COMMON + ["work = token-cursor reads (hook counter); DATA cursor construction, gc and LIST are outside that measure"]},
     "C12": {"run": semantic.run_c12, "rule": "22 fixed + random lines that tokenize; for each, every (quick: up to 14 sampled) position: insert space / tab, delete a blank, flip letter case, at positions outside string literals, REM text and DATA item text (regions computed from the implementation's own token ranges); plus padded-vs-tight DATA item lists; distinct = distinct line; non-trivial = more than one token",
             "trusted_base": TB_COMMON, "assumptions": ASSUME_COMMON},
-    "C14": {"run": semantic.run_c14, "rule": "programs of 2-8 lines mixing generated statements, random token-alphabet lines, 25 numeral spellings (leading dot/zeros, 20-400 digits, values around 2^53, subnormal strings, near overflow) and 18 DATA texts (quoted, unquoted, numeric, nan/inf, empty, containing quotes, followed by colon, multi-byte); LIST -> reload -> LIST fixed point, then RUN transcripts of both",
+    "C14": {"run": semantic.run_c14, "rule": "DATA pool includes quoted items that would be numbers without quotes (INF, NaN, 5 in quotes); programs of 2-8 lines mixing generated statements, random token-alphabet lines, 25 numeral spellings (leading dot/zeros, 20-400 digits, values around 2^53, subnormal strings, near overflow) and 18 DATA texts (quoted, unquoted, numeric, nan/inf, empty, containing quotes, followed by colon, multi-byte); LIST -> reload -> LIST fixed point, then RUN transcripts of both",
             "trusted_base": TB_COMMON, "assumptions": ASSUME_COMMON},
-    "C17": {"run": semantic.run_c17, "rule": "generated programs x the four flag configurations (flags by field; 40%: tracing via the TRACE command); per turn: outcome, state, outputs without Trace/Warning records and full snapshot without flags must be identical; trace record sequence vs the line path recovered from the untraced run",
+    "C17": {"run": semantic.run_c17, "rule": "10 programs with a known number of warning records (same variable read twice, first touch of an array that fails), tracing off and on; generated programs x the four flag configurations (flags by field; 40%: tracing via the TRACE command); per turn: outcome, state, outputs without Trace/Warning records and full snapshot without flags must be identical; trace record sequence vs the line path recovered from the untraced run",
             "trusted_base": TB_COMMON, "assumptions": ASSUME_COMMON},
 })
 
@@ -453,7 +453,7 @@ META.update({
 from . import refsem  # noqa: E402
 
 META.update({
-    "C03": {"run": refsem.run_c03, "rule": "6 fixed programs (the nested-loop NEXT I example, GOSUB in a colon line, FOR body running once with limit/step fixed at entry, implicit arrays 0..10 and defaults, READ/RESTORE/out of data, dynamic scoping of DEF FN parameters, depth-32 overflow, all ELSE forms incl. transfers in THEN, 3-dimensional strides) + programs generated as SYNTAX TREES over LET, PRINT with ; and , , IF/THEN/ELSE (6 forms, statements before and after on the line), GOTO, GOSUB/RETURN, nested FOR/TO/STEP/NEXT incl. NEXT of the outer loop, READ/DATA/RESTORE, DIM and cells of 1-3 dimensions, DEF FN with nested calls, END, RND, with 0-8%% seeded runtime failures (13 kinds); each rendered to numbered BASIC text for the implementation and to a Coq term for the reference interpreter (Ref/RefSem.v) evaluated inside Coq; compared: every printed record and the final error kind and line; distinct = program text; non-trivial = more than 3 lines",
+    "C03": {"run": refsem.run_c03, "rule": "fixed program with exactly 32 open loops whose innermost and outermost FOR lines are re-entered; 6 fixed programs (the nested-loop NEXT I example, GOSUB in a colon line, FOR body running once with limit/step fixed at entry, implicit arrays 0..10 and defaults, READ/RESTORE/out of data, dynamic scoping of DEF FN parameters, depth-32 overflow, all ELSE forms incl. transfers in THEN, 3-dimensional strides) + programs generated as SYNTAX TREES over LET, PRINT with ; and , , IF/THEN/ELSE (6 forms, statements before and after on the line), GOTO, GOSUB/RETURN, nested FOR/TO/STEP/NEXT incl. NEXT of the outer loop, READ/DATA/RESTORE, DIM and cells of 1-3 dimensions, DEF FN with nested calls, END, RND, with 0-8%% seeded runtime failures (13 kinds); each rendered to numbered BASIC text for the implementation and to a Coq term for the reference interpreter (Ref/RefSem.v) evaluated inside Coq; compared: every printed record and the final error kind and line; distinct = program text; non-trivial = more than 3 lines",
             "trusted_base": TB_COMMON + ["Ref/RefSem.v: the reference interpreter on syntax trees (the specification side of C03), evaluated by vm_compute; vlib/refsem.py renders each generated tree both to BASIC text and to a Coq term"],
             "assumptions": ASSUME_COMMON + ["programs that are still running after 1500 host calls are not compared (the two interpreters count steps differently)", "^ (f64::powf) and INPUT are outside the C03 grammar"]},
 })
